@@ -2918,3 +2918,98 @@ PROPS["C12"] = {
     "explanation": "theorems (Props/C12.lean): media_neutral_lines / master_neutral_lines (comments, EXT-X-VERSION), media_rearrangement / master_rearrangement (any sequence of swaps of adjacent independent lines: playlist-level tags among each other and with segment tags, non-key segment tags among each other; mediaStep_comm is checked for all 23x23 line kinds), media_unknown_tags / master_unknown_tags, the closed forms of all eight attribute loops (Proofs/AttrFold.lean: every field is a function of the last value written for its name) giving *_attr_layout for MAP, DATERANGE incl. client attributes, START, MEDIA, SESSION-DATA, KEY incl. METHOD=NONE, SESSION-KEY, StreamData under AttrEquiv (permutation without repeated names, unknown attributes free), attrEquiv_padded via attrPairs_render (blanks around names, =, values and ,), media_lines_layout / master_lines_layout + lines_seen, crlf_irrelevant, blank_lines_irrelevant, line_padding_irrelevant, trailing_space_irrelevant (the complete string-level parsers depend on the text only through its trimmed non-empty lines). Tie: every base and every transformed text must give the same status and observation on library and model; oracle (implementation only): each transformed text parses to the observation of its original.",
     "assumptions": ["the transformations of the oracle stream are written in Python from RFC 8216 section 4, not taken from the model"],
 }
+
+
+# ------------------------------------------------------------------------------------------
+# C04 — master playlist: serialise -> parse
+
+def c04_rich_master(rng):
+    """attribute combinations the fixtures never write and read back: I-frame stream with HDCP-LEVEL and VIDEO, rendition with
+    CHANNELS and CHARACTERISTICS, closed captions NONE next to group ids (in different playlists), every in-stream id, session keys of all formats"""
+    ls = ["#EXTM3U"]
+    vids = ["v1", "v,2", "日本=x"]
+    for g in vids:
+        ls.append('#EXT-X-MEDIA:TYPE=VIDEO,GROUP-ID="%s",NAME="%s"%s%s%s' % (g, G.qs(rng), rng.choice(["", ',URI="u.m3u8"']),
+                  rng.choice(["", ',CHANNELS="6"', ',CHANNELS="16/JOC"']), rng.choice(["", ',CHARACTERISTICS="public.a,public.b"'])))
+    auds = ["a1", "NONE"]
+    for g in auds:
+        ls.append('#EXT-X-MEDIA:TYPE=AUDIO,GROUP-ID="%s",NAME="%s",LANGUAGE="%s"%s%s' % (g, G.qs(rng), rng.choice(["en", "de"]), rng.choice(["", ',ASSOC-LANGUAGE="fr"']),
+                  rng.choice(["", ",DEFAULT=YES,AUTOSELECT=YES", ",AUTOSELECT=YES", ",DEFAULT=NO"])))
+    ls.append('#EXT-X-MEDIA:TYPE=SUBTITLES,GROUP-ID="s1",NAME="s",URI="s.m3u8"%s' % rng.choice(["", ",FORCED=YES", ",FORCED=NO"]))
+    use_cc = rng.random() < 0.6
+    if use_cc:
+        ls.append('#EXT-X-MEDIA:TYPE=CLOSED-CAPTIONS,GROUP-ID="c1",NAME="c",INSTREAM-ID="%s"' % rng.choice(G.IN_STREAM_IDS))
+    for _ in range(rng.randint(1, 4)):
+        sd = ["BANDWIDTH=%d" % G.rint(rng)]
+        if rng.random() < 0.5: sd.append("AVERAGE-BANDWIDTH=%d" % G.rint(rng))
+        if rng.random() < 0.5: sd.append('CODECS="%s"' % rng.choice(["avc1.4d401e", "mp4a.40.2,avc1.4d401e", "a, b", ""]))
+        if rng.random() < 0.5: sd.append("RESOLUTION=%dx%d" % (G.rint(rng), G.rint(rng)))
+        if rng.random() < 0.5: sd.append("HDCP-LEVEL=%s" % rng.choice(["TYPE-0", "NONE"]))
+        if rng.random() < 0.6: sd.append('VIDEO="%s"' % rng.choice(vids))
+        if rng.random() < 0.35:
+            ls.append('#EXT-X-I-FRAME-STREAM-INF:URI="%s",' % rng.choice(["i.m3u8", "a,b=c"]) + ",".join(sd))
+        else:
+            if rng.random() < 0.5: sd.append("FRAME-RATE=%s" % rng.choice(["25", "29.97", "23.976", "0.001", "240.999", "0", "59.94", "120.000"]))
+            if rng.random() < 0.5: sd.append('AUDIO="%s"' % rng.choice(auds))
+            if rng.random() < 0.4: sd.append('SUBTITLES="s1"')
+            if use_cc and rng.random() < 0.6: sd.append('CLOSED-CAPTIONS="c1"')
+            elif not use_cc and rng.random() < 0.6: sd.append("CLOSED-CAPTIONS=NONE")
+            ls.append("#EXT-X-STREAM-INF:" + ",".join(sd)); ls.append(rng.choice(["v.m3u8", "http://h/p?x=1,2", "日本.m3u8"]))
+    for i in range(rng.randint(0, 2)):
+        ls.append('#EXT-X-SESSION-DATA:DATA-ID="d%d",%s%s' % (i, rng.choice(['VALUE="v,=1"', 'URI="u"']), rng.choice(["", ',LANGUAGE="en"'])))
+    for _ in range(rng.randint(0, 2)):
+        ls.append("#EXT-X-SESSION-KEY:" + ",".join("%s=%s" % kv for kv in G.gen_key(rng)))
+    if rng.random() < 0.4: ls.append("#EXT-X-INDEPENDENT-SEGMENTS")
+    if rng.random() < 0.4: ls.append("#EXT-X-START:TIME-OFFSET=%s%s" % (G.f32_literal(rng), rng.choice(["", ",PRECISE=YES", ",PRECISE=NO"])))
+    if rng.random() < 0.3: ls.append("#EXT-X-UNKNOWN:1")
+    return "\n".join(ls) + "\n"
+
+
+def c04_build(ctx):
+    rng = ctx.rng
+    cases = []
+    for t in corpus_texts():
+        if not ("#EXTINF" in t or "TARGETDURATION" in t):
+            cases.append(mk("rt_master", t, group="corpus"))
+    for _ in range(ctx.n(3000, 60000)):
+        cases.append(mk("rt_master", G.gen_master(rng, features=ctx.features, fr3=True)[0], group="generated"))
+    for _ in range(ctx.n(1500, 30000)):
+        cases.append(mk("rt_master", c04_rich_master(rng), group="rich-combinations"))
+    # tags on their own (R: re-parses the written tag)
+    for _ in range(ctx.n(600, 12000)):
+        lay = G.Layout(rng)
+        sd = G.gen_stream_data(rng, ["v1"])
+        cases.append(mk("tag:VariantStream", "#EXT-X-STREAM-INF:" + lay.attrs(sd + ([("FRAME-RATE", "%d.%03d" % (rng.randint(0, 240), rng.randint(0, 999)))] if rng.random() < 0.5 else [])) + "\nuri.m3u8", group="tag"))
+        cases.append(mk("tag:VariantStream", "#EXT-X-I-FRAME-STREAM-INF:" + lay.attrs(sd + [("URI", '"u"')]), group="tag"))
+        cases.append(mk("tag:ExtXSessionKey", "#EXT-X-SESSION-KEY:" + lay.attrs(G.gen_key(rng)), group="tag"))
+    return cases
+
+
+def c04_oracle(ctx, cases, impl, model):
+    fails = []
+    for c, a in zip(cases, impl):
+        r = C.Resp(a)
+        if r.status == "panic":
+            fails.append(dict(describe(c.line, a), what="panicked", law="no-panic")); continue
+        if r.status != "ok":
+            if c.group in ("rich-combinations", "corpus"):
+                fails.append(dict(describe(c.line, a), what="a valid master playlist was rejected", law="accept"))
+            continue
+        k4 = 'KEYFORMATVERSIONS="1"' in c.payload.replace(" ", "")
+        rr = r.get("R")
+        if rr != "=":
+            fails.append(dict(describe(c.line, a), what="parsing the written text gives %s instead of the original value" % ("an error" if rr in ("err", "panic") else "a different value"),
+                              law="round-trip", default_versions_dropped=k4, written=C.unhx(r.get("T", ""))[:2000]))
+            continue
+        if c.op == "rt_master" and r.get("F") != "1":
+            fails.append(dict(describe(c.line, a), what="the text written from the re-parsed value differs from the first text", law="fixed-point", written=C.unhx(r.get("T", ""))[:2000]))
+    return fails
+
+
+PROPS["C04"] = {
+    "build": c04_build, "gate": {"status", "obs", "A", "R", "F"}, "oracle": c04_oracle,
+    "nontrivial": lambda c, a: a.startswith("ok"),
+    "rule": "repository master fixtures, generated master playlists (all seven tags, any attribute subset, shuffled layout, frame rates with at most 3 decimals) and dense attribute combinations (I-frame stream with HDCP-LEVEL and VIDEO, renditions with CHANNELS / CHARACTERISTICS / ASSOC-LANGUAGE, CLOSED-CAPTIONS NONE or group, all in-stream ids, session keys of every format, 64-bit bandwidths and resolutions, quoted commas and '='), each through MasterPlaylist::try_from -> to_string -> try_from -> to_string; plus variant-stream and session-key tags on their own; non-trivial = accepted playlist",
+    "explanation": "theorems (Props/C04.lean): master_write_parse (for EVERY value the parser can produce, the parser's state machine run on the writer's typed lines gives back exactly that value: the five lists in order, both flags, unknown tags; uses only that the value passed validation), master_roundtrip (text level through to_string / try_from, given each written line's text classifies back to the line: LineRT, via lineItems_renderLines and the line-splitter lemmas), master_fixed_point. LineRT per tag: see Props/C04 status in DESIGN.md (type-level round trips are C18's theorems). Tie: status, observation, A, R and F fields must agree between library and model; oracle on the library: R:= (second observation byte-identical) and F:1 (second text byte-identical).",
+    "assumptions": ["frame rates with more than 3 fractional digits are outside the property's domain (the writer emits 3 decimals)"],
+}
